@@ -729,6 +729,9 @@ class OArr(_np.ndarray):
             for idx in _np.ndindex(self.shape):
                 out[idx] = to_int(self[idx])
             return out.view(OArr)
+        if has_sym(self) and _np.dtype(dtype).kind in "fc":
+            # symbolic values carry no machine type: a cast to a floating type keeps them (rounding of the cast is outside the model)
+            return _np.array(self, dtype=object).view(OArr)
         return _np.asarray(self).astype(dtype, *a, **k)
 
 
@@ -1029,7 +1032,8 @@ class SymNumpy:
             return _np.mean(defloat(x), axis=axis, dtype=dtype, **k)
         x = _np.asarray(x, dtype=object)
         n = x.shape[axis] if axis is not None else x.size
-        return x.sum(axis=axis) / n
+        out = x.sum(axis=axis) / n
+        return out.view(OArr) if isinstance(out, _np.ndarray) and out.dtype == object else out
 
     def where(self, cond, *a):
         if not has_sym(cond):
